@@ -263,4 +263,31 @@ theorem scale_none_reads_only (g : Graph) (h : Hist) (d' : Struct) :
     simp [hg] at hs
     exact ⟨I, by rw [← hs, getScale_frame h h1 false I hg]⟩
 
+/-! ## `add` followed by `scale`: the scale of a sum is the integral of the sum
+
+Multi-step sentence: after `c = a.add(b, w)` — whatever scales `a` and `b` had stored (computed, set or stale) — `c.scale()`
+is the integral of `c`'s own bins, and `c.scale(s)` makes the recomputed scale equal `s`. -/
+
+/-- the histogram returned by `add` has no stored scale, so `scale()` of it computes the integral of its bins -/
+theorem add_then_scale (a b c c' : Hist) (w I : Q) (t : Tol) (h : add a b w t = .ok c)
+    (hg : getScale c false = .ok (c', I)) : integral c.bins c.edges.axes = .ok I ∧ c' = { c with scale := some I } := by
+  have hn := (add_cellwise a b c w t h).2.2.2.2.2
+  refine ⟨?_, getScale_frame c c' false I hg⟩
+  cases hi : integral c.bins c.edges.axes with
+  | error e => simp [getScale, hn, hi, bind, Except.bind] at hg
+  | ok J =>
+    simp [getScale, hn, hi, bind, Except.bind, pure, Except.pure] at hg
+    rw [hg.2]
+
+/-- rescaling a sum: the recomputed scale of `a.add(b, w)` after `scale(s)` is `s` -/
+theorem add_then_rescale (a b c c' : Hist) (w s : Q) (t : Tol) (h : add a b w t = .ok c) (hs : setScale c s = .ok c') :
+    getScale c' true = .ok ({ c' with scale := some s }, s) :=
+  hist_scale_recomputed c c' s hs (by
+    intro x hx
+    rw [(add_cellwise a b c w t h).2.2.2.2.2] at hx
+    cases hx)
+
+example : ((add { exHist with scale := some 5 } { exHist with bins := .node [.leaf 3, .leaf 1], scale := some 5 } 2
+    ⟨0, 0⟩).toOption.bind (fun c => (getScale c false).toOption)).map (·.2) = some 15 := by decide +kernel
+
 end Lena.C12
